@@ -393,11 +393,8 @@ class Encoder:
         if isinstance(e, sp.floor):
             inner = e.args[0]
             n, d = sp.fraction(sp.together(inner))
-            if n.is_integer and d.is_integer:
-                dd = self.intterm(d)
-                self.side.append(dd > 0)   # python // and SMT div agree for positive divisors
-                self.used_axioms.add("floor-div with positive divisor (assumed)")
-                return self.intterm(n) / dd
+            if n.is_integer and isinstance(d, sp.Integer) and d > 0:
+                return self.intterm(n) / self.intterm(d)       # python // and SMT div agree for positive divisors
         if isinstance(e, sp.Piecewise):
             acc = None
             for val, cond in reversed(e.args):
